@@ -62,6 +62,11 @@ pub(crate) const MAX_BATCH_BYTES: u64 = crate::wal::verif::geom(
 
 static LAST_MILLIS: AtomicU64 = AtomicU64::new(0);
 
+/// Makes every later `now_millis_str` value larger than `ms`.
+pub(crate) fn advance_millis_past(ms: u64) {
+    LAST_MILLIS.fetch_max(ms, Ordering::AcqRel);
+}
+
 pub(crate) fn now_millis_str() -> String {
     let system_ms = SystemTime::now()
         .duration_since(SystemTime::UNIX_EPOCH)
